@@ -39,6 +39,10 @@ func main() {
 	seed, _ := strconv.Atoi(os.Getenv("VERIF_SEED"))
 	start := time.Now()
 
+	if *dump == "props" {
+		rules.DumpProps()
+		return
+	}
 	if *dump != "" {
 		p, err := load.Load(*repo, load.Config{}, nil)
 		if err != nil {
